@@ -35,7 +35,7 @@ let sx_kind = function
   | L [A "L"; v] -> KLoad (sx_nat v) | A "R" -> KRefresh | L [A "D"; f] -> KDownload (sx_nat f)
   | L [A "LF"; v] -> KLoadFixed (sx_nat v) | A "RF" -> KRefreshFixed | L [A "RO"; o] -> KRefreshOf (sx_nat o) | _ -> failwith "kind"
 let sx_event = function
-  | L [A "R"; p] -> Run (sx_nat p) | L [A "C"; p] -> Crash (sx_nat p) | L [A "T"; d] -> Tick (sx_nat d)
+  | L [A "R"; p] -> Run (sx_nat p) | L [A "C"; p] -> Crash (sx_nat p) | L [A "T"; d] -> Tick (sx_nat d) | L [A "B"; d] -> Back (sx_nat d)
   | _ -> failwith "event"
 
 let () = main_loop (fun x ->
@@ -43,7 +43,7 @@ let () = main_loop (fun x ->
   match x with
   | L [L [nf; nc; th; mt; ul]; L [L fs; st; lf; clk]; L ks; L evs] ->
     let c = { nfiles = sx_nat nf; nchunks = sx_nat nc; threshold = sx_nat th; max_tries = sx_nat mt;
-              unlink_on_release = sx_bool ul; cleanup_outside_lock = false; memo_stamp = false; per_process_locks = false } in
+              unlink_on_release = (sx_int ul = 1); cleanup_outside_lock = false; memo_stamp = false; per_process_locks = false; ignore_future_stamp = false; parse_fallback = (sx_int ul >= 2) } in
     let has_lf = sx_bool lf in
     let s = { files_of = List.map sx_file fs; stamp = sx_stamp st;
               lockfile = (if has_lf then Some O else None); locks = [];
